@@ -29,6 +29,11 @@ pub(crate) struct CycleDetectingIter<'a, const STOP_AT_CYCLES: bool> {
     next: u64,
     cycle_found: bool,
     mark_phase: bool,
+    // the original values of the PStrLoc cells whose values currently hold
+    // reversed pointers. unlike the other single-child cells (variables),
+    // the value of a PStrLoc cell (a byte offset into its string) can't be
+    // recovered from the location of the cell it leads to (the string's tail).
+    pstr_loc_values: fxhash::FxHashMap<usize, u64>,
 }
 
 impl<'a, const STOP_AT_CYCLES: bool> CycleDetectingIter<'a, STOP_AT_CYCLES> {
@@ -43,6 +48,7 @@ impl<'a, const STOP_AT_CYCLES: bool> CycleDetectingIter<'a, STOP_AT_CYCLES> {
             next,
             cycle_found: false,
             mark_phase: true,
+            pstr_loc_values: fxhash::FxHashMap::default(),
         }
     }
 
@@ -214,6 +220,7 @@ impl<'a, const STOP_AT_CYCLES: bool> CycleDetectingIter<'a, STOP_AT_CYCLES> {
                         }
 
                         self.heap[tail_idx].set_forwarding_bit(true);
+                        self.pstr_loc_values.insert(self.current, h as u64);
 
                         self.next = self.heap[tail_idx].get_value();
                         self.heap[tail_idx].set_value(self.current as u64);
@@ -337,6 +344,14 @@ impl<'a, const STOP_AT_CYCLES: bool> CycleDetectingIter<'a, STOP_AT_CYCLES> {
             self.heap[self.current].set_value(self.next);
             self.next = self.current as u64;
             self.current = temp as usize;
+
+            if self.heap[self.current].get_tag() == HeapCellValueTag::PStrLoc {
+                // we came back from the tail of a string: the cell gets
+                // its offset into the string back, not the tail's location.
+                if let Some(pstr_loc) = self.pstr_loc_values.remove(&self.current) {
+                    self.next = pstr_loc;
+                }
+            }
         }
 
         if self.current == self.start {
